@@ -94,6 +94,10 @@ def model_check(ctx, module, cfg, expect_ok=True, timeout=1800, workers=None, he
     rc, out = tlc(ctx, module, cfg, workers=workers, timeout=timeout, heap=heap, young=young)
     m = re.search(r"(\d+) states generated, (\d+) distinct states found, (\d+) states left", out)
     ok = "Model checking completed. No error has been found." in out
+    if m is None and not expect_ok and "is violated" in out:     # refuted already in an initial state
+        ctx.mc_runs.append(dict(module=module, cfg=cfg, generated=0, distinct=0, ok=False, wall_s=round(time.time() - t, 1)))
+        ctx.log("R1 %s/%s: refuted in an initial state (control)" % (module, cfg))
+        return False, out
     if m is None or (not ok and "is violated" not in out and "Deadlock" not in out):
         open(os.path.join(ctx.work, "tlc_error.txt"), "w").write(out)
         raise Infra("TLC failed on %s/%s (see %s/tlc_error.txt)\n%s" % (module, cfg, ctx.work, out[-2000:]))
